@@ -29,7 +29,7 @@ ASSUMPTIONS = ["an error response is 'authored by mitmproxy' when no scripted se
                "html.parser's tokenisation is used as the reading of a browser-like consumer"]
 LEVEL_TEXT = "all known error paths are enumerated, payloads are sampled; a structural HTML oracle decides escaping"
 LEVEL_NOTE = "trusts Python's html.parser and lib/ref_http1.py"
-QUICK_N = 40_000
+QUICK_N = 30_000
 THOROUGH_N = 1_500_000
 
 MARK = "zQ7"
